@@ -27,7 +27,7 @@ RULE = ("A: alphabet of 20 operations (incl. a member of an arrayed constant re-
 ASSUMPTIONS = ["preemption only at line boundaries of Model.memoize; <=3 worker threads, 3 grid points",
                "the fresh-rebuild oracle uses the same engine on an unshared object (the property is relational)"]
 REQUIRED = {"stochastic_reruns": 40, "edit_schedules_with_preemption": 100, "histories": 500, "grid_comparisons": 5000, "schedules": 100, "schedules_with_double_miss": 5, "scenario_reruns": 20}
-BUDGET_S = {"quick": 100, "thorough": 1500}
+BUDGET_S = {"quick": 150, "thorough": 1500}
 
 OPS = ["v0", "v1", "v2", "f0", "f1", "s0", "s1", "i5", "i100", "ic", "c2", "c7", "reset", "peek", "peek_plot", "peek_memo", "k80", "pA+reset", "pI+reset", "a1"]
 PTS = [[[0.0, 1.0], [2.0, 3.0], [6.0, 0.5]], [[0.0, 4.0], [3.0, 0.0], [6.0, 2.0]]]
